@@ -335,6 +335,60 @@ theorem C04_enum_text (sch : Schema) (orc : Oracle) (ref : Name) (text : Bytes) 
           exact hmem
         · simp at h
 
+/-- strings: a text is accepted iff it is well-formed UTF-8 (Go `utf8.ValidString`), and it is stored verbatim -/
+theorem C04_string_text (sch : Schema) (orc : Oracle) (text : Bytes) (v : Val) :
+    parseScalar sch orc .string text = .ok v ↔ validUTF8 text = true ∧ v = .bytes text := by
+  simp only [parseScalar]
+  cases h : validUTF8 text <;> simp [eq_comm]
+
+/-- … ill-formed text is InvalidArgument, for string fields, StringValue and FieldMask (whole value checked) alike -/
+theorem C04_string_text_invalid (sch : Schema) (orc : Oracle) (text : Bytes) (h : validUTF8 text = false) :
+    parseScalar sch orc .string text = .error .invalidArgument
+    ∧ parseMessage orc wString text = .error .invalidArgument
+    ∧ parseMessage orc wFieldMask text = .error .invalidArgument := by
+  refine ⟨by simp [parseScalar, h], ?_, ?_⟩
+  · have h1 : (wString = wInt64) = False := by decide
+    have h2 : (wString = wInt32) = False := by decide
+    have h3 : (wString = wUInt64) = False := by decide
+    have h4 : (wString = wUInt32) = False := by decide
+    have h5 : (wString = wBool) = False := by decide
+    simp [parseMessage, h, h1, h2, h3, h4, h5]
+  · have h1 : (wFieldMask = wInt64) = False := by decide
+    have h2 : (wFieldMask = wInt32) = False := by decide
+    have h3 : (wFieldMask = wUInt64) = False := by decide
+    have h4 : (wFieldMask = wUInt32) = False := by decide
+    have h5 : (wFieldMask = wBool) = False := by decide
+    have h6 : (wFieldMask = wString) = False := by decide
+    have h7 : (wFieldMask = wBytes) = False := by decide
+    simp [parseMessage, h, h1, h2, h3, h4, h5, h6, h7]
+
+/-- the recogniser is compositional: a concatenation of well-formed texts is well formed -/
+theorem C04_validUTF8_append (a b : Bytes) (ha : validUTF8 a = true) (hb : validUTF8 b = true) :
+    validUTF8 (a ++ b) = true :=
+  validUTF8_append a b ha hb
+
+/-- every Unicode scalar value (U+0000..U+D7FF, U+E000..U+10FFFF) in its UTF-8 encoding is accepted … -/
+theorem C04_validUTF8_scalar (c : Nat) (h : c < 55296 ∨ (57344 ≤ c ∧ c < 1114112)) :
+    validUTF8 (utf8Encode c) = true :=
+  validUTF8_encode c h
+
+/-- … and the ill-formed classes are rejected: overlong forms (C0 80, C1 BF, E0 80 80, E0 9F BF, F0 80 80 80,
+    F0 8F BF BF), surrogates (ED A0 80, ED BF BF), above U+10FFFF (F4 90 80 80, F5 80 80 80), truncated
+    sequences (E2 82, F0 9D 84, C3), stray bytes (80, FF, C3 28); boundaries accepted: U+007F, U+0080, U+07FF,
+    U+0800, U+D7FF, U+E000, U+FFFF, U+10000, U+10FFFF. -/
+example :
+    validUTF8 [192, 128] = false ∧ validUTF8 [193, 191] = false ∧ validUTF8 [224, 128, 128] = false
+    ∧ validUTF8 [224, 159, 191] = false ∧ validUTF8 [240, 128, 128, 128] = false ∧ validUTF8 [240, 143, 191, 191] = false
+    ∧ validUTF8 [237, 160, 128] = false ∧ validUTF8 [237, 191, 191] = false
+    ∧ validUTF8 [244, 144, 128, 128] = false ∧ validUTF8 [245, 128, 128, 128] = false
+    ∧ validUTF8 [226, 130] = false ∧ validUTF8 [240, 157, 132] = false ∧ validUTF8 [195] = false
+    ∧ validUTF8 [128] = false ∧ validUTF8 [255] = false ∧ validUTF8 [195, 40] = false
+    ∧ validUTF8 [127] = true ∧ validUTF8 [194, 128] = true ∧ validUTF8 [223, 191] = true
+    ∧ validUTF8 [224, 160, 128] = true ∧ validUTF8 [237, 159, 191] = true ∧ validUTF8 [238, 128, 128] = true
+    ∧ validUTF8 [239, 191, 191] = true ∧ validUTF8 [240, 144, 128, 128] = true ∧ validUTF8 [244, 143, 191, 191] = true
+    ∧ validUTF8 [] = true := by
+  decide
+
 /-- bool: exactly the twelve spellings of strconv.ParseBool -/
 theorem C04_bool_text (s : Bytes) (b : Bool) (h : parseBool s = some b) :
     s ∈ ([[49], [116], [84], [84, 82, 85, 69], [116, 114, 117, 101], [84, 114, 117, 101],
